@@ -142,7 +142,7 @@ where
         // return a value for every component within the registry.
         unsafe { identifier_iter.next().unwrap_unchecked() } {
             // TODO: Better error messages?
-            let component_column = seq
+            let mut component_column = ManuallyDrop::new(seq
                 .next_element_seed(DeserializeColumn::<C>::new(length))?
                 .ok_or_else(|| {
                     de::Error::invalid_length(
@@ -158,8 +158,11 @@ where
                         })
                         .as_str(),
                     )
-                })?;
-            components.push((component_column.0.cast::<u8>(), component_column.1));
+                })?);
+            components.push((
+                component_column.as_mut_ptr().cast::<u8>(),
+                component_column.capacity(),
+            ));
         }
 
         // SAFETY: Since one bit was consumed from `identifier_iter`, it still has the same number
